@@ -536,6 +536,9 @@ func body(w *runner.W) {
 			r.Failf("pool-bowl:prefix-refused:"+c.Mode, "a block-aligned prefix of the signed content (%d of %d bytes) was refused: %v", len(wr), len(signed), opErr)
 		case !mustFail && !bytes.Equal(got, wr):
 			r.Failf("pool-bowl:inner-differs:"+c.Mode, "the inner pool holds %d bytes, written %d", len(got), len(wr))
+		case !mustFail && (inner.Written[fileIndex] == nil || !inner.Closed[fileIndex]):
+			// also an empty file has to reach the underlying pool: created (or truncated) and closed
+			r.Failf("pool-bowl:file-never-reached-the-pool:"+c.Mode, "%d bytes accepted, but the underlying pool was never asked for a writer for the file (or it was not closed)", len(wr))
 		}
 	})
 	if pb.Active() {
